@@ -98,6 +98,10 @@ JudgeInfo(s, e) ==
        \cup (IF X("xAttIdx", f.nAttIdx) THEN {} ELSE {"C08/Info/AttachmentIndexes/Content"})
        \cup (IF X("xMdIdx", f.nMdIdx) THEN {} ELSE {"C08/Info/MetadataIndexes/Content"})
        \cup (IF X("xStats", TRUE) THEN {} ELSE {"C08/Info/Statistics/Content"})
+       \* Info.ChannelCounts, the per-topic view of the per-channel counts: never a crash, and the channel's count for every
+       \* topic that one channel carries
+       \cup (IF X("ccPanic", FALSE) THEN {} ELSE {"C08/Info/ChannelCounts/Panic"})
+       \cup (IF X("ccPanic", FALSE) /\ ~X("ccOK", TRUE) THEN {"C08/Info/ChannelCounts"} ELSE {})
        \cup (IF e.attOK = e.nAttIdx THEN {} ELSE {"C02/AttachmentByIndex"})
        \cup (IF e.mdOK = e.nMdIdx THEN {} ELSE {"C02/MetadataByIndex"})
 
